@@ -19,7 +19,7 @@
 //   range types with the pass of every invocation observed (directed case, main tree), queue:
 //   executed-then-deleted exactly once, flush() and the destructor wait for completion, capacity
 //   bound; proven deadlock (every thread of the process blocked in cond_wait/join, no wake-up for
-//   5 s) is a violation, a mere watchdog expiry is inconclusive.  tsan tree: any ThreadSanitizer
+//   10 s) is a violation, a mere watchdog expiry is inconclusive.  tsan tree: any ThreadSanitizer
 //   report aborts the shard (exit 66) which the driver turns into a violation.
 #include "pbt.h"
 #include "SimTKcommon.h"
@@ -166,7 +166,7 @@ int countTasks(bool record = false) {
 }
 // Deadlock monitor: a violation is reported only when EVERY thread of the process other than this monitor is inside
 // pthread_cond_wait / pthread_join (so nobody is left who could ever signal) while the main thread is inside a library
-// call, and no thread entered or left a wait and nothing was signalled for 5 s (margin for wake-ups in flight).
+// call, and no thread entered or left a wait and nothing was signalled for 10 s (margin for wake-ups in flight).
 void monitorBody() {
     long lastEv = -1; int stableMs = 0;
     for (;;) {
@@ -175,7 +175,7 @@ void monitorBody() {
         long ev = g_events.load(RLX);
         if (ev != lastEv) { lastEv = ev; stableMs = 0; continue; }
         stableMs += 50;
-        if (stableMs >= 5000 && stableMs % 500 == 0) {
+        if (stableMs >= 10000 && stableMs % 500 == 0) {
             long parked = g_parked.load(RLX); int n = countTasks();
             if (const char* dbg = getenv("C33_DEBUG")) { FILE* f = fopen(dbg, "a"); if (f) { fprintf(f, "monitor: stable %d ms, parked=%ld tasks=%d base=%d events=%ld now=%ld\n", stableMs, parked, n, g_baseTasks, ev, g_events.load(RLX)); fclose(f); } }
             if (parked >= 1 && parked == n - g_baseTasks && g_events.load(RLX) == ev) {   // n - baseline(incl. main) - monitor + main
@@ -543,8 +543,8 @@ void enumerate2D(pbt::Ctx& ctx, bool complete) {
         if (e1 - e0 != 4) { g_active.store(false, RLX); ctx.fail("harness self-test: pass observation through pthread_cond_broadcast saw " + std::to_string(e1 - e0) + " broadcasts for 4 execute() calls (interposition inactive?)"); return; }
     }
     long configs = 0, invocations = 0, passes = 0, parallelConfigs = 0;
-    static const int qg[] = {0, 1, 2, 3, 4, 5, 6, 7, 8, 9, 10, 11, 12, 13, 14, 15, 16, 17, 18, 19, 20, 21, 22, 23, 24, 25, 26, 27, 28, 29, 30, 31, 32, 33, 34, 47, 48, 49, 63, 64, 65, 95, 96, 97, 127, 128},
-                     qp[] = {1, 2, 3, 4, 5, 6, 7, 8, 9, 12, 16, 17, 24, 31, 32};
+    static const int qg[] = {0, 1, 2, 3, 4, 5, 6, 7, 8, 9, 10, 11, 12, 15, 16, 17, 23, 31, 32, 33, 47, 63, 64, 65, 97, 127, 128},
+                     qp[] = {1, 2, 3, 4, 5, 7, 8, 9, 16, 17, 32};
     std::vector<int> grids, procsList;
     if (complete) { for (int g = 0; g <= 128; ++g) grids.push_back(g); for (int p = 1; p <= 32; ++p) procsList.push_back(p); }
     else { grids.assign(qg, qg + sizeof qg / sizeof *qg); procsList.assign(qp, qp + sizeof qp / sizeof *qp); }
@@ -562,7 +562,7 @@ void enumerate2D(pbt::Ctx& ctx, bool complete) {
         }
     }
     g_active.store(false, RLX);
-    ctx.desc << (complete ? "exhaustive: grid 0..128 x processors 1..32 x 3 range types = " : "quick sub-lattice (the thorough tier enumerates the complete lattice): 46 grid sizes x 15 processor counts x 3 range types = ") << configs << " configurations (" << parallelConfigs << " multi-threaded), " << passes << " passes, " << invocations
+    ctx.desc << (complete ? "exhaustive: grid 0..128 x processors 1..32 x 3 range types = " : "quick sub-lattice (the thorough tier enumerates the complete lattice): 27 grid sizes x 11 processor counts x 3 range types = ") << configs << " configurations (" << parallelConfigs << " multi-threaded), " << passes << " passes, " << invocations
              << " invocations; every invocation's pass observed; no two invocations of one pass on different workers share an index; every pair of the range executed exactly once\n";
     ctx.label(complete ? "exhaustive:2d-partition" : "sublattice:2d-partition");
 }
@@ -572,9 +572,9 @@ void enumerate2D(pbt::Ctx& ctx, bool complete) {
 #if C33_TSAN
 void childMain(const char* what) {
     struct CT : ParallelExecutor::Task { std::atomic<int> n{0}; void execute(int) override { n.fetch_add(1, RLX); } };
-    struct QT : ParallelWorkQueue::Task { std::atomic<int>& n; QT(std::atomic<int>& n) : n(n) {} void execute() override { n.fetch_add(1, RLX); } };
-    if (!strcmp(what, "pexec")) { for (int r = 0; r < 40; ++r) { ParallelExecutor ex(4); CT t; ex.execute(t, 16); ex.execute(t, 3); } }
-    else if (!strcmp(what, "pwq")) { std::atomic<int> n{0}; for (int r = 0; r < 40; ++r) { ParallelWorkQueue q(4, 3); for (int k = 0; k < 25; ++k) q.addTask(new QT(n)); q.flush(); } }
+    struct QT : ParallelWorkQueue::Task { std::atomic<int>& n; QT(std::atomic<int>& n) : n(n) {} void execute() override { usleep(100); n.fetch_add(1, RLX); } };   // long enough that the destructor sets `finished` while workers are still executing: their next unlocked loop-condition read follows that write with no lock in between
+    if (!strcmp(what, "pexec")) { for (int r = 0; r < 80; ++r) { ParallelExecutor ex(4); CT t; ex.execute(t, 16); ex.execute(t, 3); } }
+    else if (!strcmp(what, "pwq")) { std::atomic<int> n{0}; for (int r = 0; r < 40; ++r) { ParallelWorkQueue q(4, 3); for (int k = 0; k < 8; ++k) q.addTask(new QT(n)); /* destroyed while the workers are still executing */ } }
 }
 #endif
 // The two race findings are only observable under ThreadSanitizer.  The engine runs directed cases in shard 0 of the main
@@ -588,6 +588,7 @@ std::string tsanTwin() {
     return access(p.c_str(), X_OK) == 0 ? p : "";
 }
 void runChild(pbt::Ctx& ctx, const char* what, const char* describe) {
+    alarm(600);   // the child runs under ThreadSanitizer: own watchdog budget (expiry = inconclusive)
     std::string twin = tsanTwin();
     if (twin.empty()) { ctx.desc << describe << ": ThreadSanitizer build of this harness not found next to the main build; reproducer skipped\n"; return; }
     char log[128]; snprintf(log, sizeof log, "/tmp/verif-C33-%d-child-%s.log", (int)getpid(), what);
@@ -631,7 +632,7 @@ pbt::Config config() {
 #if C33_TSAN
     c.quick = {40, 400, 24, 20}; c.thorough = {300, 6000, 30, 240};
 #else
-    c.quick = {300, 4000, 24, 20}; c.thorough = {2000, 60000, 30, 240};
+    c.quick = {300, 4000, 24, 20}; c.thorough = {1000, 60000, 30, 240};
 #endif
     c.maxShrinkExecs = 600; c.maxShrinkSecs = 25;
     c.rule = "rapidcheck tape -> one of {ParallelExecutor: threads 1..32 (incl. clone/default ctor), 1..5 execute() calls of 0..10000 tasks on one executor, destruction; "
@@ -641,14 +642,14 @@ pbt::Config config() {
              "pthread_cond_wait/signal/broadcast calls. Non-trivial: >= 2 threads, more tasks than threads (grid > 2 x threads), and at least one injected delay; distinct by tape hash. "
              "Directed (main tree): COMPLETE enumeration of the 2-D partition, grid 0..128 x processors 1..32 x 3 range types (exhaustive: true for that sub-space).";
     c.assumptions = {"within one ParallelExecutor::execute the workers are not synchronised with each other (same pass + different worker = may run concurrently); a pass is delimited by the one pthread_cond_broadcast the calling thread makes per execute() (self-tested)",
-                     "a state in which every thread of the process is blocked in pthread_cond_wait/pthread_join for 5 s with no wake-up issued is a deadlock; any other expiry of the 60 s watchdog is inconclusive",
+                     "a state in which every thread of the process is blocked in pthread_cond_wait/pthread_join for 10 s with no wake-up issued is a deadlock; any other expiry of the 60 s watchdog is inconclusive",
                      "interleavings are sampled (perturbed), not enumerated; ThreadSanitizer judges the schedules that occurred (tsan tree)"};
 #if !C33_TSAN
     if (currentTier() == "thorough" || getenv("C33_ENUM_COMPLETE")) c.directed.push_back({"enum2d-partition-complete", "", [](pbt::Ctx& ctx) { enumerate2D(ctx, true); }});
     else if (!getenv("C33_ENUM_SKIP")) c.directed.push_back({"enum2d-partition-sublattice", "", [](pbt::Ctx& ctx) { enumerate2D(ctx, false); }});
 #endif
-    c.directed.push_back({"tsan-pexec-destructor-vs-worker-loop", "pexec-finished-race", [](pbt::Ctx& ctx) { runChild(ctx, "pexec", "40 x {ParallelExecutor(4); execute 16 and 3 tasks; destroy} under ThreadSanitizer"); }});
-    c.directed.push_back({"tsan-pwq-worker-loop-condition", "pwq-unlocked-loop-cond", [](pbt::Ctx& ctx) { runChild(ctx, "pwq", "40 x {ParallelWorkQueue(4,3); add 25 tasks; flush; destroy} under ThreadSanitizer"); }});
+    c.directed.push_back({"tsan-pexec-destructor-vs-worker-loop", "pexec-finished-race", [](pbt::Ctx& ctx) { runChild(ctx, "pexec", "80 x {ParallelExecutor(4); execute 16 and 3 tasks; destroy} under ThreadSanitizer"); }});
+    c.directed.push_back({"tsan-pwq-worker-loop-condition", "pwq-unlocked-loop-cond", [](pbt::Ctx& ctx) { runChild(ctx, "pwq", "40 x {ParallelWorkQueue(4,3); add 8 tasks of 100 us; destroy with work pending} under ThreadSanitizer"); }});
     c.requiredLabels = {"kind:ParallelExecutor", "kind:Parallel2DExecutor", "kind:ParallelWorkQueue", "threads:17-32", "pex:repeated-execute", "2d:supplied-executor", "range:HalfMatrix", "range:HalfPlusDiagonal", "range:FullMatrix",
                         "pwq:destroy-with-pending", "pwq:flush-between-adds", "injected-delay"};
     return c;
